@@ -164,11 +164,32 @@ func fam(name string) string {
 
 // ---- wrapped objects ----
 
+// parts returns the transforms to apply one after the other: a two-part JoinedTransform is taken apart when
+// nested wrapping is asked for, so that the second wrapper receives the result of the first.
+func parts(t model3d.Transform, nested bool) []model3d.Transform {
+	if jt, ok := t.(model3d.JoinedTransform); ok && nested && len(jt) == 2 {
+		return []model3d.Transform{jt[0], jt[1]}
+	}
+	return []model3d.Transform{t}
+}
+
 func checkWrapped(r *ev.Run, nt named, shapes []ref.Shape3, pts []model3d.Coord3D) {
+	checkWrappedMode(r, nt, shapes, pts, false)
+	if jt, ok := nt.t.(model3d.JoinedTransform); ok && len(jt) == 2 {
+		// the same composition as two wrappers stacked on each other
+		nt.name = "nested " + nt.name
+		checkWrappedMode(r, nt, shapes, pts, true)
+	}
+}
+
+func checkWrappedMode(r *ev.Run, nt named, shapes []ref.Shape3, pts []model3d.Coord3D, nested bool) {
 	t := nt.t
 	for _, s := range shapes {
 		solid := s.Obj.(model3d.Solid)
-		ts := model3d.TransformSolid(t, solid)
+		ts := solid
+		for _, pt := range parts(t, nested) {
+			ts = model3d.TransformSolid(pt, ts)
+		}
 		c := tcase{Transform: nt.name, Object: s.Name}
 		if !model3d.BoundsValid(ts) {
 			r.Violation("TransformSolid/bounds-invalid/"+fam(nt.name), nt.name+" of "+s.Name+": invalid bounds", c)
@@ -202,7 +223,10 @@ func checkWrapped(r *ev.Run, nt named, shapes []ref.Shape3, pts []model3d.Coord3
 			continue
 		}
 		// SDF
-		tsdf := model3d.TransformSDF(dt, s.Obj.(model3d.SDF))
+		tsdf := s.Obj.(model3d.SDF)
+		for _, pt := range parts(t, nested) {
+			tsdf = model3d.TransformSDF(pt.(model3d.DistTransform), tsdf)
+		}
 		for _, p0 := range pts {
 			p := s.Center.Add(p0.Scale(s.Extent))
 			r.Eval(1)
@@ -217,7 +241,10 @@ func checkWrapped(r *ev.Run, nt named, shapes []ref.Shape3, pts []model3d.Coord3
 		}
 		// collider
 		coll := s.Obj.(model3d.Collider)
-		tc := model3d.TransformCollider(dt, coll)
+		tc := model3d.Collider(coll)
+		for _, pt := range parts(t, nested) {
+			tc = model3d.TransformCollider(pt.(model3d.DistTransform), tc)
+		}
 		t0 := t.Apply(model3d.Coord3D{})
 		checked := 0
 		for oi := 0; oi < len(pts); oi += 5 {
@@ -294,7 +321,10 @@ func checkWrapped(r *ev.Run, nt named, shapes []ref.Shape3, pts []model3d.Coord3
 		r.NontrivialAdd(checked)
 		// metaball
 		if mb, ok := s.Obj.(model3d.Metaball); ok {
-			tm := model3d.TransformMetaball(dt, mb)
+			tm := mb
+			for _, pt := range parts(t, nested) {
+				tm = model3d.TransformMetaball(pt.(model3d.DistTransform), tm)
+			}
 			for _, p0 := range pts[:len(pts)/3] {
 				p := s.Center.Add(p0.Scale(s.Extent))
 				r.Eval(1)
